@@ -577,3 +577,77 @@ Section SortViewHistories.
     rewrite E. unfold Sol. rewrite S. reflexivity.
   Qed.
 End SortViewHistories.
+
+(* ================================ fromdicts(<generator>) ============================================== *)
+Section DictsGenerator.
+  Variables (hdr : row) (rows : list row).
+  Definition dg_sol : list out := ORow hdr :: map ORow rows ++ [OStop].
+  Definition dg_inv (s : dg_state) : Prop := dg_header s = hdr /\ dg_rows s = rows /\ (dg_cached s <= length rows)%nat.
+  Definition dg_rem (i : dg_iter) : list out :=
+    match i with DgFresh => dg_sol | DgAt pos => skipn pos (map ORow rows ++ [OStop]) | DgDone => [] end.
+  Definition dg_wf (s : dg_state) (i : dg_iter) : Prop :=
+    match i with DgAt pos => (pos <= dg_cached s)%nat | _ => True end.
+
+  Lemma skipn_rows_some pos r : nth_error rows pos = Some r ->
+    skipn pos (map ORow rows ++ [OStop]) = ORow r :: skipn (Datatypes.S pos) (map ORow rows ++ [OStop]).
+  Proof. apply (skipn_sol_some rows). Qed.
+
+  Lemma dg_next_ok s i : dg_inv s -> dg_wf s i ->
+    let '(s', i', o) := vm_next dg_machine s i in
+    dg_inv s' /\ dg_wf s' i' /\ ((dg_rem i = o :: dg_rem i') \/ (dg_rem i = [] /\ o = OStop /\ dg_rem i' = []))
+    /\ (forall j, dg_wf s j -> dg_wf s' j).
+  Proof.
+    intros (Hh & Hr & Hc) Hw. destruct i as [|pos|]; cbn [vm_next dg_machine].
+    - repeat split; auto; cbn; try lia. left. rewrite Hh. reflexivity.
+    - cbn [dg_wf] in Hw. destruct (pos <? dg_cached s)%nat eqn:E.
+      + apply Nat.ltb_lt in E. rewrite Hr.
+        destruct (nth_error rows pos) as [r|] eqn:En.
+        * repeat split; auto; cbn [dg_wf dg_rem]; try lia. left. apply skipn_rows_some. exact En.
+        * apply nth_error_None in En. lia.
+      + apply Nat.ltb_ge in E. assert (pos = dg_cached s) by lia. subst pos. rewrite Hr.
+        destruct (nth_error rows (dg_cached s)) as [r|] eqn:En.
+        * assert (dg_cached s < length rows)%nat by (apply nth_error_Some; congruence).
+          split; [|split; [|split]].
+          -- unfold dg_inv. cbn. repeat split; auto.
+          -- cbn. lia.
+          -- left. cbn [dg_rem]. apply skipn_rows_some. exact En.
+          -- intros j. destruct j; cbn; auto.
+        * split; [|split; [|split]]; auto.
+          -- unfold dg_inv. repeat split; auto.
+          -- exact I.
+          -- left. cbn [dg_rem]. apply (skipn_sol_end rows); auto.
+    - split; [|split; [|split]]; auto. unfold dg_inv. repeat split; auto.
+  Qed.
+End DictsGenerator.
+
+Theorem dictsgenerator_independent hdr rows ops :
+  let '(_, _, t) := mrun dg_machine ops (dg_init hdr rows) [] [] in
+  forall k, prefix_with_stops (dg_sol hdr rows) (proj k t).
+Proof.
+  apply (schedule_independent dg_machine (dg_inv hdr rows) dg_wf (dg_rem hdr rows) (dg_sol hdr rows)).
+  - intros s HI. cbn. repeat split; auto; apply HI.
+  - intros s i HI Hw. exact (dg_next_ok hdr rows s i HI Hw).
+  - unfold dg_inv, dg_init. cbn. repeat split; auto. lia.
+Qed.
+
+(* ================================ stateless views ================================================== *)
+(* a view whose __iter__ writes no shared state: every iterator is a private cursor into the same result *)
+Theorem stateless_independent (result : list out) ops :
+  (exists rows t, result = map ORow rows ++ [t] /\ match t with ORow _ => False | _ => True end) ->
+  let '(_, _, t) := mrun (stateless_machine result) ops tt [] [] in
+  forall k, prefix_with_stops result (proj k t).
+Proof.
+  intros (rows & term & Hres & Hterm).
+  apply (schedule_independent (stateless_machine result) (fun _ => True)
+           (fun _ i => exists pre, result = pre ++ i /\ (i = [] \/ exists rs, i = map ORow rs ++ [term]))
+           (fun i => i) result); auto.
+  - intros s _. cbn. repeat split; auto. exists []. split; auto. right. exists rows. exact Hres.
+  - intros s i _ (pre & Hpre & Hshape). cbn. destruct i as [|o rest].
+    + repeat split; auto. exists pre. auto.
+    + destruct Hshape as [Hn|(rs & Hrs)]; [discriminate|].
+      destruct rs as [|r rs']; cbn in Hrs; inversion Hrs; subst.
+      * destruct term as [r0| |e]; try contradiction; repeat split; auto.
+        -- exists (pre ++ [OStop]). rewrite <- app_assoc. cbn. auto.
+        -- exists (pre ++ [ORaise e]). rewrite <- app_assoc. cbn. auto.
+      * repeat split; auto. exists (pre ++ [ORow r]). rewrite <- app_assoc. cbn. split; auto. right. eauto.
+Qed.
